@@ -39,6 +39,8 @@ package slug
 //@   tolerates os.Create#1: isPermission(_err)
 //@   tolerates os.Chmod: true
 //@   tolerates os.File.Close: true
+// the Lstat before an entry is created only asks whether an earlier entry left a symlink there; "nothing there" is the normal answer
+//@   tolerates os.Lstat: true
 //@   sweep
 //@   replay validSymlink: root=dst, path=header.Name, target=header.Linkname, nallow=len(p.allowSymlinkTargets)
 //@   replay unpackDirs@C15:
@@ -139,6 +141,7 @@ package slug
 //@   replay packRootLink@C16:
 //@   at-call path/filepath.Walk#1 C16.pack.walk-root: a0 == Abs(ite(modeSymlinkBit(fileMode(info)), ite(isAbs(readlinkOf(src)), readlinkOf(src), Join(Dir(src), readlinkOf(src))), src))
 //@   sets $packCalls = old($packCalls) + 1
+//@   sets $packFailed = err != nil
 //@   assume-at-call go-slug.Packer.packWalkFn not-fs-root: a2 != "/"
 //@   ensures C20.pack.meta: err == nil ==> metaMatchesArchive(meta)
 //@   ensures C12.pack.close-errors: err == nil ==> isNil($tarCloseErr) && isNil($gzipCloseErr)
@@ -148,6 +151,8 @@ package slug
 //@ macro slugPath(): Rel(root, Replace(path, src, dst, 1))
 //@ func (*Packer).packWalkFn$1 -> (rerr)
 //@   opt propagate-errors
+// an entry or directory the walk could not read ends the packing with an error: the slug would silently lack it
+//@   ensures C12,C02.walk.walk-error-reported: err != nil ==> rerr != nil && (rerr == err || rerr != filepath.SkipDir)
 // the switch default "unexpected file mode": checkFileMode has already returned for every mode that is
 // not regular, directory or symlink, so the code itself never reaches it (declared for the per-return vacuity guard)
 //@   opt dead-return=unexpected file mode
@@ -196,6 +201,9 @@ package slug
 //@   pure
 //@   sweep
 //@   ensures C05.resolve.target-clean: err == nil ==> Clean(r.absTarget) == r.absTarget && (isAbs(root) ==> isAbs(r.absTarget))
+// the result describes what stands at the end of the chain of links, never a link on the way (the caller skips
+// whatever is neither a directory nor a regular file, so a link here would silently drop the file behind it)
+//@   ensures C02.resolve.end-of-chain: err == nil ==> !modeSymlinkBit(fileMode(r.info))
 //@   requires pre.p: p != nil
 //@   ensures C19.result: err == nil ==> r != nil
 //@   ensures C03,C05.notskip: err != filepath.SkipDir
@@ -204,6 +212,7 @@ package slug
 //@   pure
 //@   sweep
 //@   ensures C05.follow.target-clean: err == nil ==> Clean(r.absTarget) == r.absTarget && (isAbs(root) ==> isAbs(r.absTarget))
+//@   ensures C02.follow.end-of-chain: err == nil ==> !modeSymlinkBit(fileMode(r.info))
 //@   replay packCycle:
 //@   requires pre.p: p != nil
 //@   decreases C19.terminates: hops
